@@ -131,6 +131,23 @@ def run_harness(inputs, rp, tag):
     return res
 
 
+def witness_regressions(rp):
+    """replay the witnesses of known_findings.d/C15.json on the implementation: a fixed one must pass"""
+    for k in common.known_findings("C15"):
+        w = k.get("witness")
+        if not w or "sql" not in w:
+            continue
+        wr = run_harness([dict(w, id=0)], rp, "witness")
+        if not wr or not wr[0]["accepted"]:
+            continue
+        fails = oracle(wr[0], w["want"])
+        if k["status"] == "fixed" and fails:
+            rp.violation({"kind": "regression", "known_key": k["key"], "input": w, "failure": fails,
+                          "explanation": "a defect recorded as fixed is back"}, "regression_" + k["key"])
+        if k["status"] == "known" and not fails:
+            rp.cov["notes"].append("stale known finding (witness passes now): " + k["key"])
+
+
 def run(tier):
     rp = Report("C15", tier)
     rng = random.Random(common.seed())
@@ -144,6 +161,8 @@ def run(tier):
                 rp, ["theories/Inst/Inst_C15.vo", "theories/Proofs/ExtractP.vo", "theories/Model/QCase.vo"],
                 "theories/Props/C15.v", THEOREMS, inst_names=["Inst_C15.em_covers_ok"])
     except common.StageError as e:
+        if e.stage == "qslots":         # a modelled node type / field is gone: is a repaired defect back?  (failing input for the report)
+            witness_regressions(rp)
         return common.stage_fail(rp, e)
     known = {json.dumps(k["signature"], sort_keys=True): k for k in common.known_findings("C15") if k.get("status") == "known"}
 
@@ -266,19 +285,7 @@ def run(tier):
                   not [1 for d, r, f in failures if json.dumps(signature_of(f, d), sort_keys=True) not in known])
 
     # ---- known / fixed witnesses ----
-    for k in common.known_findings("C15"):
-        w = k.get("witness")
-        if not w or "sql" not in w:
-            continue
-        wr = run_harness([dict(w, id=0)], rp, "witness")
-        if not wr or not wr[0]["accepted"]:
-            continue
-        fails = oracle(wr[0], w["want"])
-        if k["status"] == "fixed" and fails:
-            rp.violation({"kind": "regression", "known_key": k["key"], "input": w, "failure": fails,
-                          "explanation": "a defect recorded as fixed is back"}, "regression_" + k["key"])
-        if k["status"] == "known" and not fails:
-            rp.cov["notes"].append("stale known finding (witness passes now): " + k["key"])
+    witness_regressions(rp)
 
     # ---- correspondences, evaluated inside Coq (vm_compute), case files compiled concurrently ----
     # 1: model on the dumped real tree = implementation output
